@@ -253,15 +253,69 @@ def run_point(kind: str, scratch: str, scenario: str, k: int | None, seed: int, 
             cw.close()
 
 
+def run_worker_main(kind: str, scratch: str) -> dict:
+    """fault-free: the REAL PersistentProcessRunner worker loop (persistent_process_main, driven in this thread with a counting
+    stop event) polls a queue [blocked-by-concurrency-control, runnable]: the same poll defers one invocation and claims
+    another; the deferred one must come back (the poll generator has to be run to its end)."""
+    import signal
+    from pynenc.conf.config_task import ConcurrencyControlType as CT
+    from pynenc.invocation.status import InvocationStatus as St
+    from pynenc.runner.persistent_process_runner import persistent_process_main
+    clock = VirtualClock()
+    with clock:
+        tasks_c03.DONE.clear()
+        app = world.make_app(kind, scratch, builder_hook=lambda b: b.persistent_process_runner(num_processes=1),
+                             max_pending_seconds=LIMIT, runner_considered_dead_after_minutes=DEAD_MIN)
+        orch = app.orchestrator
+        t_excl = app.task(tasks_c03.serial, running_concurrency=CT.TASK, reroute_on_concurrency_control=True)
+        t_plain = app.task(tasks_c03.plain)
+        ctx_l = world.runner_ctx("L")
+        orch.register_runner_heartbeats(["L"])
+        e1 = t_excl(1)
+        got = list(orch.get_invocations_to_run(1, ctx_l))
+        assert [g.invocation_id for g in got] == [e1.invocation_id]
+        orch.set_invocation_status(e1.invocation_id, St.RUNNING, ctx_l)
+        e2, p = t_excl(2), t_plain(3)
+
+        class Stop:
+            def __init__(self):
+                self.calls, self.forced = 0, False
+
+            def is_set(self):
+                self.calls += 1
+                if self.calls == 2:
+                    tasks_c03.DONE.append(e1.invocation_id)
+                    orch.set_invocation_result(got[0], 1, ctx_l)          # the blocker finishes after the first poll
+                if self.calls > 1:
+                    orch.register_runner_heartbeats(["L", "W"])
+                return self.forced or self.calls > 8
+
+            def set(self):
+                self.forced = True
+        prev = signal.getsignal(signal.SIGTERM)
+        exc = None
+        try:
+            persistent_process_main(app, runner_cache={}, stop_event=Stop(), parent_runner_ctx_json=app.runner.runner_context.to_json(),
+                                    child_runner_id="W")
+        except BaseException as ex:  # noqa: BLE001
+            exc = repr(ex)
+        finally:
+            signal.signal(signal.SIGTERM, prev)
+        final = {n: orch.get_invocation_status(i.invocation_id).name for n, i in (("blocker", e1), ("deferred", e2), ("other", p))}
+        stranded = [n for n, i in (("blocker", e1), ("deferred", e2), ("other", p))
+                    if not (final[n] in FINAL and i.invocation_id in tasks_c03.DONE)]
+        return {"backend": kind, "final": final, "stranded": stranded, "queue_end": app.broker.count_invocations(), "exc": exc}
+
+
 EFF_NAME = {"EPop": "pop", "EPush": "push", "EBody": "body", "EOther": "other"}
 
 
 def model_queries(scenarios: dict[str, int]):
     """Coq expressions: per scenario the model program, and per crash point whether the canonical survivor schedule finishes"""
-    step = "(cstep gen_p_retry gen_p_reroute gen_p_kill_head gen_p_finish_ok gen_p_finish_err gen_pop_before_claim)"
+    step = "(cstep gen_p_retry gen_p_reroute gen_p_kill_head gen_p_finish_ok gen_p_finish_err gen_pop_before_claim gen_poll_exhausted)"
     code = ("(fun e => match e with EPop => [0] | EPush => [1] | EBody => [2] | EOther => [3] | ETrans t => [4; status_code t] end)")
     prog = lambda r: (f"(map {code} ((if pops_at_start gen_pop_before_claim {r} then [EPop] else []) ++ "
-                      f"prog_of gen_p_retry gen_p_reroute gen_p_kill_head gen_p_finish_ok gen_p_finish_err gen_pop_before_claim {r}))")
+                      f"prog_of gen_p_retry gen_p_reroute gen_p_kill_head gen_p_finish_ok gen_p_finish_err gen_pop_before_claim gen_poll_exhausted {r}))")
     flush = "; ".join(["LSStep"] * 10)
     rec = "; ".join(["LSStart RRecPending", "LSStep", "LSStep", "LSStep", "LSStart RRecRunning", "LSStep", "LSStep", "LSStep",
                      "LSStart RClaimRun"] + ["LSStep"] * 8)
@@ -400,6 +454,20 @@ def main(ctx: Ctx) -> int:
                                       {"kind": "crash-point", "backend": kind, "scenario": sc, "k": k, "seed": seed, "survivors": 1 + j % 2,
                                        "concurrent": True, "observed": out})
         ctx.notes["interleaved_runs"] = inter
+        # ---- 5. the real worker loop of the persistent process runner on a queue [deferred, runnable] (fault-free)
+        for kind in ("sqlite", "mem"):
+            try:
+                out = run_worker_main(kind, scratch)
+            except Exception as ex:  # noqa: BLE001 - a backend the runner refuses to be built with is not a verdict
+                ctx.notes.setdefault("worker_main_skipped", {})[kind] = repr(ex)[:200]
+                continue
+            total += 1
+            ctx.notes.setdefault("worker_main", {})[kind] = out
+            if out["stranded"] or out["exc"]:
+                ctx.violation("strand:worker-main:deferred-not-requeued",
+                              f"{kind}: real persistent_process_main on a queue [blocked by concurrency control, runnable]: {out['stranded']} not finished "
+                              f"({out['final']}, {out['queue_end']} queue entries, exception {out['exc']}) — without any crash",
+                              {"kind": "worker-main", "backend": kind, "observed": out})
     finally:
         S.SQL_YIELD = True
         world.rm_scratch(scratch)
@@ -421,6 +489,9 @@ def replay(ctx: Ctx, path: str) -> int:
     S.SQL_YIELD = False
     scratch = world.scratch_dir()
     try:
+        if rp.get("kind") == "worker-main":
+            print(json.dumps(run_worker_main(rp["backend"], scratch), indent=1, default=str))
+            return 0
         if rp.get("kind") == "model":
             print(json.dumps(rp, indent=1))
             return 0
